@@ -22,22 +22,34 @@ KINDS = {'spurious', 'unowned', 'multi', 'wrongid', 'wrongprov', 'locus', 'crash
 
 def build_deck(r):
     card, tr, ca, sp = r['card'], r['tr'], r['carrier'], r['spell']
+    fk = r.get('facet', 0)
     trc = {'n': 7, 'o': tr['o'], 'm': tr['m'], 'spell': sp}
     body = {'o': tr['o'], 'm': tr['m']}
     if ca == 'surftr':
         return {'surfs': [dict(card, n=1, tr=7)], 'trs': [trc],
-                'cells': [{'n': 1, 'geom': ['S', -1, 0]}, {'n': 2, 'geom': ['S', 1, 0]}]}
+                'cells': [{'n': 1, 'geom': ['S', -1, fk]}, {'n': 2, 'geom': ['S', 1, fk]}]}
     if ca == 'trclnum':
         return {'surfs': [dict(card, n=1)], 'trs': [trc],
-                'cells': [{'n': 1, 'geom': ['S', -1, 0], 'hastrcl': True, 'trcl': body, 'trclnum': 7},
+                'cells': [{'n': 1, 'geom': ['S', -1, fk], 'hastrcl': True, 'trcl': body, 'trclnum': 7},
                           {'n': 2, 'geom': ['C', 1]}]}
     if ca in ('trclinline', 'trclstar'):
         return {'surfs': [dict(card, n=1)], 'trs': [],
-                'cells': [{'n': 1, 'geom': ['S', -1, 0], 'hastrcl': True, 'trcl': body,
+                'cells': [{'n': 1, 'geom': ['S', -1, fk], 'hastrcl': True, 'trcl': body,
                            'trclspell': 'star' if ca == 'trclstar' else sp},
                           {'n': 2, 'geom': ['C', 1]}]}
-    cells = [{'n': 1, 'geom': ['S', -3001, 0]},
-             {'n': 2, 'geom': ['S', 3001, 0] if ca == 'implicit' else ['C', 1]},
+    if ca == 'implicitdense':
+        # explicit surfaces 1 (a far plane), 2 (the sample), 3000 (outer sphere); cell 3 = "-1 -2" carries the TRCL;
+        # the probe cells refer to the implicit surface 3002 = surface 2 moved by the TRCL of cell 3, the very
+        # number the TRCL pass would allocate first if the free surface key were taken before the implicit pass
+        return {'surfs': [{'n': 1, 'k': 'pz', 'p': [40]}, dict(card, n=2), {'n': 3000, 'k': 'so', 'p': [30]}],
+                'trs': [trc],
+                'cells': [{'n': 1, 'geom': ['*', ['S', -3002, fk], ['S', -3000, 0]]},
+                          {'n': 2, 'geom': ['*', ['S', 3002, fk], ['S', -3000, 0]]},
+                          {'n': 4, 'geom': ['S', 3000, 0], 'imp': 0},
+                          {'n': 3, 'geom': ['*', ['S', -1, 0], ['S', -2, 0]], 'u': 5, 'hastrcl': True, 'trcl': body,
+                           'trclnum': 7}]}
+    cells = [{'n': 1, 'geom': ['S', -3001, fk]},
+             {'n': 2, 'geom': ['S', 3001, fk] if ca == 'implicit' else ['C', 1]},
              {'n': 3, 'geom': ['S', -1, 0], 'u': 5, 'hastrcl': True, 'trcl': body, 'trclnum': 7}]
     return {'surfs': [dict(card, n=1)], 'trs': [trc], 'cells': cells}
 
